@@ -9,6 +9,7 @@ from urllib.parse import urlparse
 
 from cryptojwt import as_unicode
 from cryptojwt.exception import UnsupportedAlgorithm
+from cryptojwt.jwe.jwe import factory as jwe_factory
 from cryptojwt.jws.jws import factory as jws_factory
 from cryptojwt.jws.utils import left_hash
 from cryptojwt.jwt import JWT
@@ -284,7 +285,11 @@ def verify_id_token(msg, check_hash=False, claim="id_token", **kwargs):
         except KeyError:
             pass
 
-    _jws = jws_factory(msg[claim])
+    _jwt = msg[claim]
+    _jwe = jwe_factory(_jwt)
+    if _jwe and "keyjar" in kwargs:  # an encrypted ID Token: the checks below are about the JWS inside
+        _jwt = as_unicode(_jwe.decrypt(_jwt, kwargs["keyjar"].get_decrypt_key(owner="")))
+    _jws = jws_factory(_jwt)
     if not _jws:
         raise ValueError("{} not a signed JWT".format(claim))
 
